@@ -90,6 +90,18 @@ class Facts:
             c = [self.fn(p) for p in self._breach.get(kw['impl_adt'], {}) if (self.fn(p) or {}).get('name') == kw['name']]
             if len(c) == 1:
                 return c[0]
+            # ... or a read-only operation folded into the public method: the inherent, non-shared public method of
+            # that name in the state's module that takes the lock; judged with the locked state addressed as `self`
+            mod = kw['impl_adt'].rsplit('::', 1)[0] + '::'
+            c = [f for f in self.raw['fns'] if f.get('name') == kw['name'] and f['kind'] != 'closure'
+                 and f['path'].startswith(mod) and '::shared::' not in f['path'] and not f.get('impl_trait')
+                 and f.get('impl_adt') != kw['impl_adt']
+                 and any(b['term']['k'] == 'call' and 'fn' in b['term']['func'] and
+                         b['term']['func']['fn']['path'].startswith('lock_api::') and
+                         b['term']['func']['fn']['name'] == 'lock' for b in f['blocks'] if not b['cleanup'])]
+            if len(c) == 1:
+                self.alias_fns.add(c[0]['path'])
+                return c[0]
         if len(r) != 1:
             raise AnchorMissing('expected exactly one fn for %r, found %d' % (kw, len(r)))
         return r[0]
